@@ -11,6 +11,13 @@ Monitor (does not use the model): for ordered pairs of elements of every layout,
 that holds the target; every reference Capella (corpus) resp. the fragmenter (Capella-style layouts) wrote
 must be reproduced verbatim by `create_link(owner, follow(link))`; lists written through the real
 accessors (`AttrProxyAccessor.__set_links`, `LinkAccessor.__create_link`) read back in order.
+
+Histories (round 5): a relation is written through every link-writing accessor kind of the referrer's class, then a
+member, the referrer or an ancestor of one of them is moved through the list API into another file (and back), then
+the relation is edited again through insert / append / setitem / del / remove / assignment - and after EVERY write the
+text the library produced is judged: each link names the intended member and is spelled for the files that hold
+referrer and member NOW (oracle, `create_link`, and the Lean model's `setLinks` / `attrInsert` / `attrDelete` on that
+state).  Link text in attributes the operation did not write is not judged.
 """
 
 from __future__ import annotations
@@ -39,7 +46,9 @@ RULE = ("(a) path pairs: exhaustive over a component alphabet (spaces, %, #, non
         "Python white-space class; (d) loaders: every corpus model and seeded fragment layouts (1-4 nested cuts, fragment "
         "depth 0-3, relocated main file, .airdfragment indirection, raw non-ASCII, equal file names in different directories, library files renamed to the project file's resource-relative name) x ordered element pairs (all pairs of a "
         "stratified sample covering every file and every (tag, id-attribute set) shape) x include_target_type in "
-        "{None,True,False}; link lists of length 0-6 mixing forms. distinct = distinct (stream, layout, from, to / text); "
+        "{None,True,False}; link lists of length 0-6 mixing forms; (e) histories on every loader: a relation of a random referrer written through a random link-writing accessor of its class "
+        "(attribute list / single attribute / reference elements / fixed-length ends), then a member, the referrer or an ancestor moved through a containment list into another file of the project "
+        "(and back), then 1-3 further list operations (insert, append, setitem, del, remove, assignment; same or fresh list object) - every write judged. distinct = distinct (stream, layout, from, to / text); "
         "non-trivial = cross-file pair, or a text with a special character / white space / malformed part")
 ASSUMPTIONS = [
     "Capella's cross-file reference text is '<type> <relative path, RFC 3986 UTF-8 percent-quoted>#<id>' as in the two library test models; "
@@ -59,11 +68,13 @@ MANIFEST = dict(
           "tree key for any depth and any component text; the quoted path has no space/#/white space; create_link returns "
           "'#id' iff same fragment, 'type path#id' from non-visual sources with typed targets, 'path#id' otherwise, always "
           "matching the link grammar with the right groups; following a created link returns exactly the target under id "
-          "uniqueness; space-joined lists of created links split and resolve back in order for any length. Tied to /repo by "
+          "uniqueness; space-joined lists of created links split and resolve back in order for any length; insert into / removal from a "
+          "list attribute written earlier writes, at every position, the link for the fragment holding that member now. Tied to /repo by "
           "exhaustive/seeded differential runs on the pure functions and on real loaders over corpus models and "
           "Capella-style fragment layouts written by an independent fragmenter; an implementation-side monitor checks "
-          "resolve-back by object identity, the text against an independent oracle, and verbatim reproduction of every "
-          "reference Capella wrote."),
+          "resolve-back by object identity, the text against an independent oracle, verbatim reproduction of every "
+          "reference Capella wrote, and - in write / move-across-files / write-again histories through every link-writing "
+          "accessor kind - that every written link is spelled for the current positions of referrer and member."),
     design_ref="§6 C05",
     note=("Trusted: Lean kernel; harness/fragmenter.py and posixpath/urllib as oracle of Capella's format; corpus has "
           "cross-resource links only in the two library models (68 links), fragment layouts are synthetic. follow_link "
